@@ -121,6 +121,14 @@ var zzStreams = []string{
 	"<body style=\"display:inline\"><span>" + zzLong + "</span>", "<html style=\"display:inline\"><body style=\"display:inline\">" + zzLong,
 	"<a href=\"javascript:x\">" + zzLong + "</a>", "<template><p>" + zzLong + "</p></template>", "<math><mi>x</mi></math>" + zzLong,
 	"<ul><li>" + zzLong + "<ul><li>" + zzLong, "<pre>\n" + zzLong, "<br><br><br>", "<img src=x><img src=y>", "<h1></h1><h2></h2>",
+	// metadata oddities
+	`<div itemscope itemtype="http://schema.org/ImageObject"><span itemprop="caption">c</span></div><p>` + zzLong + `</p>`,
+	`<div itemscope itemtype="http://schema.org/Article"><div itemprop="image" itemscope itemtype="http://schema.org/ImageObject"></div><span itemprop="author"></span><span itemprop="publisher" itemscope></span></div><p>` + zzLong + `</p>`,
+	`<div itemscope><span itemprop="name">n</span><div itemscope itemtype="http://schema.org/Person"></div></div><span itemprop="headline">orphan</span><p>` + zzLong + `</p>`,
+	`<html prefix="og:"><head><meta property="og:title" content=""><meta property="og:image"><meta property="og:image:width" content="x"><meta property="article:author"><meta name="IE_RM_OFF"></head><body><p>` + zzLong + `</p>`,
+	`<html xmlns:og="http://ogp.me/ns#" xmlns:x="http://ogp.me/ns/x#"><head><meta property="og:type" content="profile"><meta property="profile:first_name" content="A"><meta property="og:title" content="T"><meta property="og:url" content="u"><meta property="og:image" content="i"></head><body><p>` + zzLong + `</p>`,
+	`<head><title></title><meta name="title"><meta name="displaydate" content=""></head><figure><img width="x" height="0"><figcaption></figcaption><figcaption></figcaption><figcaption></figcaption></figure><img width="800" height="400"><p class="byline-name"></p><p>` + zzLong + `</p>`,
+	`<a rel="author"></a><link rel="author"><div itemscope itemtype="http://schema.org/NewsArticle" itemid="x"><meta itemprop="datePublished"><img itemprop="image"><a itemprop="url"></a></div><p>` + zzLong + `</p>`,
 }
 
 // HarnessC01Streams: ApplyForReader / ApplyForFile on odd byte streams
